@@ -65,6 +65,17 @@ for name, bs in out["magics"]:
         got = "raised " + type(e).__name__
     si.append((name, list(info), got, bs))
 out["sysinfo2magic_calls"] = si
+# a patch release the tables do not list falls back to its series: the table for (major, minor, 99) is the series' table
+from xdis.op_imports import get_opcode_module
+ul = []
+for a, b in ((2, 7), (3, 3), (3, 6), (3, 7), (3, 8), (3, 9), (3, 10), (3, 11), (3, 12), (3, 13)):
+    try:
+        with contextlib.redirect_stdout(buf):
+            m_ = get_opcode_module((a, b, 99))
+        ul.append(((a, b), list(m_.version_tuple[:2])))
+    except Exception as e:
+        ul.append(((a, b), "raised " + type(e).__name__))
+out["opcode_for_unlisted_patch"] = ul
 # the header stage on a file of every table magic: the magic load_module reports back
 import io, struct
 from xdis.load import load_module_from_file_object
